@@ -347,12 +347,12 @@ def eff_path(kind, method, N, mcs, fast, name):
     return m
 
 
-def run_op(it, opname, method, env):
-    """Returns dict(res=..., err=..., log=[...])."""
+def run_op(it, opname, method, env, op=None):
+    """Returns dict(res=..., err=..., log=[...]).  `op`: run on this existing object (call histories)."""
     out = {"err": None, "res": None, "log": None}
     with env:
         try:
-            op = it.build()
+            op = it.build() if op is None else op
             if opname == "chol":
                 out["res"] = op.cholesky(upper=method)
             elif opname == "tl.chol":
@@ -588,6 +588,181 @@ def mstr(m):
     return "none" if m is None else m
 
 
+
+# ------------------------------------------------------------------------------------------- call histories
+def _mrds(N, lab):
+    return {"lt": max(2, N - 2), "eq": N, "gt": N + 5}[lab]
+
+
+def _mcs(N, lab):
+    return {"0": 0, "N-1": max(N - 1, 0), "N": N, "def": DEFAULT_MCS}[lab]
+
+
+CACHED_OPS = ("root", "rootinv", "diag")
+
+
+def hist_templates(it, rng, quick):
+    """(prime, calls): prime = None | (target, name); call = (opname, method, mcs_label, mrds_label)."""
+    singular = "psd-singular" in it.tags
+    if "pivonly" in it.tags:
+        return []
+    if singular:
+        return [(None, [("root", "symeig", "def", "gt"), ("root", "svd", "def", "gt"), ("eigh", None, "def", "gt")]),
+                (("self", "svd"), [("eigh", None, "def", "gt"), ("eigvalsh", None, "def", "gt"), ("svd", None, "def", "gt")]),
+                (None, [("eigvalsh", None, "def", "gt"), ("eigh", None, "def", "gt"), ("root", "symeig", "def", "gt")])]
+    T = [
+        (None, [("root", "lanczos", "def", "lt"), ("root", "cholesky", "def", "gt")]),
+        (None, [("root", "pivoted_cholesky", "def", "lt"), ("root", None, "def", "gt"), ("root", "symeig", "def", "gt")]),
+        (("self", "logdet"), [("rootinv", "lanczos", "def", "gt"), ("rootinv", "cholesky", "def", "gt")]),
+        (None, [("eigh", None, "def", "gt"), ("eigh", None, "def", "gt"), ("eigvalsh", None, "def", "gt")]),
+        (("sub", "diagonalization"), [("rootinv", "lanczos", "def", "gt"), ("eigh", None, "def", "gt")]),
+        (None, [("rootinv", "lanczos", "def", "lt"), ("rootinv", "cholesky", "def", "gt"), ("root", None, "def", "gt")]),
+        (("self", "diagonalization"), [("eigvalsh", None, "def", "gt"), ("root", None, "def", "gt"), ("svd", None, "def", "gt")]),
+        (("self", "logdet"), [("eigh", None, "def", "gt"), ("rootinv", "symeig", "def", "gt")]),
+    ]
+    if "derived-cache" not in it.tags:
+        T.append((None, [("root", None, "0", "gt"), ("root", "cholesky", "def", "gt"), ("rootinv", None, "def", "gt")]))
+        T.append((None, [("root", "lanczos", "0", "lt"), ("root", "symeig", "0", "gt"), ("root", None, "def", "gt")]))
+    pool = [("root", m) for m in ROOT_METHODS] + [("rootinv", m) for m in RINV_METHODS] + [("diag", m) for m in DIAG_METHODS] + \
+           [("eigh", None), ("eigvalsh", None), ("svd", None), ("chol", False), ("chol", True), ("tl.eigh", None), ("tl.eigvalsh", None)]
+    primes = [None, ("self", "logdet"), ("self", "solve"), ("self", "diagonalization"), ("self", "eigh"), ("self", "svd"),
+              ("self", "cholesky"), ("self", "rootinv"), ("sub", "diagonalization"), ("sub", "rootinv"), ("sub", "cholesky"), ("sub", "eigh")]
+    for _ in range(2 if quick else 6):
+        calls, keys = [], set()
+        pattern = rng.choice(["same", "rank", "size"]) if "derived-cache" not in it.tags else rng.choice(["same", "rank"])
+        for j in range(rng.choice([2, 3, 3])):
+            for _try in range(20):
+                o, m = rng.choice(pool)
+                if o in CACHED_OPS and (o, m) in keys:
+                    continue
+                break
+            keys.add((o, m))
+            mcs = "def" if pattern != "size" else ("0" if j == 0 else "def")
+            mr = "gt" if pattern != "rank" else ("lt" if j == 0 else "gt")
+            calls.append((o, m, mcs, mr))
+        T.append((rng.choice(primes), calls))
+    return T
+
+
+def run_prime(op, prime, seed):
+    """Priming query under default settings (direct methods).  Returns a description or None if not applicable."""
+    run_prime.last = None
+    if prime is None:
+        return "none"
+    target, name = prime
+    tgt = op
+    if target == "sub":
+        from linear_operator.operators import DiagLinearOperator, TriangularLinearOperator
+        subs = [x for x in _sub_ops(op)[1:] if x.shape[-1] == x.shape[-2] and x.shape[-1] > 1
+                and not isinstance(x, (DiagLinearOperator, TriangularLinearOperator))]
+        subs = [x for x in subs if torch.allclose(x.to_dense(), x.to_dense().mT)]
+        if not subs:
+            return None
+        tgt = subs[seed % len(subs)]
+    N = tgt.shape[-1]
+    with Env(DEFAULT_MCS, N + 5, True, seed):
+        try:
+            if name == "logdet":
+                tgt.logdet()
+            elif name == "solve":
+                tgt.solve(torch.ones(*tgt.batch_shape, N, 2, dtype=tgt.dtype))
+            elif name == "diagonalization":
+                run_prime.last = tgt.diagonalization()
+            elif name == "eigh":
+                tgt.eigh()
+            elif name == "svd":
+                tgt.svd()
+            elif name == "cholesky":
+                tgt.cholesky()
+            elif name == "rootinv":
+                run_prime.last = tgt.root_inv_decomposition()
+        except Exception as e:  # a failing primer is not this check's subject (C04/C05); the history continues
+            return f"{target}:{name}!{type(e).__name__}"
+    return f"{target}:{name}"
+
+
+def call_str(it, c, N):
+    o, m, ml, rl = c
+    if o in ("root", "rootinv", "diag"):
+        return f"{o}:{mstr(m)}>{eff_path(o, m, N, _mcs(N, ml), True, it.name)}@{ml},{rl}"
+    if "chol" in o:
+        return f"{o}:upper={int(bool(m))}@{ml},{rl}"
+    return f"{o}@{ml},{rl}"
+
+
+def _errmag(msg):
+    import re
+    m = re.search(r"by ([0-9.eE+-]+|inf|nan)", msg)
+    try:
+        return float(m.group(1)) if m else float("inf")
+    except ValueError:
+        return float("inf")
+
+
+def run_histories(chk, it, batch, dtype, table, lines, pending, quick):
+    N = it.dense.shape[-1]
+    dt = "f64" if dtype == torch.float64 else "f32"
+    ev = "|ev=diag" if it.name in EV_DIAG or any(it.name.endswith("(" + e + ")") for e in EV_DIAG) else ""
+    for hi, (prime, calls) in enumerate(hist_templates(it, chk.rng, quick)):
+        seed = chk.rng.randrange(2 ** 31)
+        with warnings.catch_warnings():
+            warnings.simplefilter("ignore")
+            op = it.build()
+            pdesc = run_prime(op, prime, seed)
+        if pdesc is None:
+            continue
+        cstrs = [call_str(it, c, N) for c in calls]
+        if "nolanczos" in it.tags and any((c[0] == "diag" or c[1] == "diagonalization") and ">lanczos" in cs for c, cs in zip(calls, cstrs)):
+            continue
+        base_cell = f"C06/hist/{it.name}[b={batch}|{dt}{ev}]/p={pdesc}/" + "/".join(cstrs)
+        results, modelled, kind = [], [], hook_kind(op, table)[0]
+        lanczos_seen = False
+        if kind == "base" and prime is not None and prime[0] == "self" and prime[1] in ("diagonalization", "rootinv") and "!" not in pdesc:
+            results.append(run_prime.last)
+            modelled.append(("diag" if prime[1] == "diagonalization" else "rootinv", None, DEFAULT_MCS, N + 5, 0))
+        payload = {"inst": it.name, "plan": it.plan, "prime": list(prime) if prime else None, "calls": [list(c) for c in calls], "seed": seed}
+        for k, c in enumerate(calls):
+            o, m, ml, rl = c
+            mcs, mr = _mcs(N, ml), _mrds(N, rl)
+            path = eff_path(o, m, N, mcs, True, it.name) if o in CACHED_OPS else "direct"
+            r = run_op(it, o, m, Env(mcs, mr, True, seed + k + 1), op=op)
+            r["compressible"] = compressible(op, table)
+            r["kind"] = kind
+            fails = check_result(it, o, m, r, path, mr)
+            # xw=1: an earlier call of this history was a Lanczos-path root_inv_decomposition (it overwrites the cached root)
+            xw = int(any(calls[j][0] == "rootinv" and ">lanczos@" in cstrs[j] for j in range(k)))
+            # lz=1: an earlier call of this history ran a Lanczos primitive on this object or a sub-operator
+            lz = int(lanczos_seen)
+            err = "small" if fails and all(("by " in f and _errmag(f) <= 2e-4) for f in fails) else "large"
+            cell = base_cell + f"/fail={k}:{cstrs[k]}/xw={xw}/lz={lz}/err={err}"
+            lanczos_seen = lanczos_seen or any(t.startswith("lanczos:") for t in (r["log"] or []))
+            chk.case(f"{base_cell}#{k} seed={seed} A={it.dense.flatten().tolist()[:30]}", nontrivial=N > 1)
+            chk.count("hist:calls")
+            chk.count(f"hist:op:{o}")
+            if fails:
+                chk.violation(cell, f"call {k} of the history on one object: " + "; ".join(fails)[:350] + f" | A[0]={it.dense.reshape(-1, N, N)[0].tolist()}", payload)
+                chk.count("hist:failing-calls")
+            results.append(r.get("res"))
+            if o in CACHED_OPS:
+                modelled.append((o, m, mcs, mr, len(results) - 1))
+        chk.count("hist:histories")
+        # model correspondence on the provenance of the returned objects (base-class operators, N > 1)
+        if kind == "base" and N > 1 and "derived" not in it.tags and len([x for x in modelled if x[4] is not None]) >= 1:
+            lines.append(f"hist {N} " + ";".join(f"{o}:{mstr(m)}:{mcs}:{mr}:1" for o, m, mcs, mr, _ in modelled))
+            obs = []
+            for j, (o, m, mcs, mr, ri) in enumerate(modelled):
+                if ri is None or results[ri] is None:
+                    obs.append("?")
+                    continue
+                src = "new"
+                for j2 in range(j):
+                    r2 = modelled[j2][4]
+                    if r2 is not None and results[r2] is not None and results[r2] is results[ri]:
+                        src = f"hit:{j2}"
+                        break
+                obs.append(src)
+            pending.append((base_cell + "/provenance", ("hist", obs), False, payload))
+
 # ------------------------------------------------------------------------------------------- main
 def settings_grid(chk, N, opname, method, quick, it=None):
     if opname == "pivchol":
@@ -803,6 +978,69 @@ def diag_svd_cells(chk):
             chk.violation(cell, "; ".join(bad)[:400], {"d": d})
 
 
+def hetero_cells(chk):
+    """Heterogeneous batches: PD members batched with an exactly singular PSD member (plain Cholesky fails for it
+    only).  Cholesky-based factorizations are compared PER MEMBER: the PD members at working precision (no jitter may
+    reach them), the singular member up to the jitter psd_safe_cholesky is allowed to add (≤ 111·jitter)."""
+    import contextlib
+    from linear_operator import settings
+    from linear_operator.operators import BlockDiagLinearOperator, DenseLinearOperator
+    rng = chk.rng
+    n = 3
+    for rep in range(2 if chk.tier == "quick" else 8):
+        members = []
+        sidx = rng.randrange(3)
+        for b in range(3):
+            if b == sidx:
+                v = C.ri(rng, (n, 1), 1, 3, torch.float64)
+                members.append(v @ v.mT)
+            else:
+                members.append(C.psd_int(rng, (), n, torch.float64))
+        A = torch.stack(members)
+        for jit, jl in ((None, "default"), (1e-2, "1e-2"), (1e-4, "1e-4")):
+            jval = 1e-8 if jit is None else jit
+            for wrap_name in ("Dense", "BlockDiag"):
+                for opname, method in (("chol", False), ("chol", True), ("root", "cholesky"), ("root", None), ("rootinv", "cholesky"), ("rootinv", None)):
+                    cell = f"C06/hetero/{wrap_name}[singular@{sidx}]/{opname}:{mstr(method) if 'chol' not in opname else 'upper=' + str(int(method))}/jitter={jl}"
+                    chk.case(f"{cell} A={A.flatten().tolist()}")
+                    chk.count("hetero:cases")
+                    ctx = settings.cholesky_jitter(double_value=jit) if jit is not None else contextlib.nullcontext()
+                    try:
+                        with warnings.catch_warnings(), ctx:
+                            warnings.simplefilter("ignore")
+                            op = DenseLinearOperator(A.clone())
+                            if wrap_name == "BlockDiag":
+                                op = BlockDiagLinearOperator(op)
+                            if opname == "chol":
+                                L = op.cholesky(upper=method).to_dense()
+                                G = L.mT @ L if method else L @ L.mT
+                            elif opname == "root":
+                                R = (op.root_decomposition(method=method) if method else op.root_decomposition()).root.to_dense()
+                                G = R @ R.mT
+                            else:
+                                R = (op.root_inv_decomposition(method=method) if method else op.root_inv_decomposition()).root.to_dense()
+                                G = R @ R.mT
+                    except Exception as e:
+                        chk.violation(cell, f"raised {type(e).__name__}: {e}"[:300] + f" | A={A.tolist()}", {"A": A.tolist(), "jit": jit})
+                        continue
+                    if wrap_name == "BlockDiag":
+                        G = torch.stack([G[b * n:(b + 1) * n, b * n:(b + 1) * n] for b in range(3)])
+                    bad = []
+                    for b in range(3):
+                        if b == sidx:
+                            if opname != "rootinv":
+                                d = float((G[b] - A[b]).abs().max())
+                                if not (d <= 111.5 * jval + 1e-12):
+                                    bad.append(f"singular member {b}: |G − A| = {d:.3g} exceeds the jitter budget {111 * jval:.3g}")
+                            continue
+                        tgt = A[b] if opname != "rootinv" else torch.linalg.inv(A[b])
+                        e = float((G[b] - tgt).abs().max() / tgt.abs().max())
+                        if not (e <= 2e-11):
+                            bad.append(f"PD member {b}: reconstruction differs by {e:.3g} (rel) — jitter must only be added to the member that fails Cholesky")
+                    if bad:
+                        chk.violation(cell, "; ".join(bad)[:400] + f" | A={A.tolist()}", {"A": A.tolist(), "jit": jit})
+
+
 def translator_crosscheck(chk, facts):
     import linear_operator.operators as O
     from linear_operator import settings
@@ -836,6 +1074,11 @@ def resolve_pending(chk, outs, lines, pending):
         elif impl[0] == "str":
             ok = (o == impl[1])
             what = f"line `{ln}`: model `{o}` impl `{impl[1]}`"
+        elif impl[0] == "hist":
+            mod = o.split(",")
+            obs = impl[1]
+            ok = len(mod) == len(obs) and all(b == "?" or (a == b if a.startswith("hit") else b == "new") for a, b in zip(mod, obs))
+            what = f"line `{ln}`: model sources {mod} observed {obs} (hit:i = the very object returned by call i)"
         elif impl[0] == "spectrum":
             want = sorted(float(Fraction(x)) for x in o.split(","))
             got = impl[1]
@@ -909,12 +1152,15 @@ def run(chk, only=None):
     lines, pending = [], []
     exact_cells(chk, lines, pending)
     diag_svd_cells(chk)
+    hetero_cells(chk)
     quick = chk.tier == "quick"
     for pi, (dtype, batch, n, names, do_wrap) in enumerate(build_plan(chk)):
         insts = plan_instances(chk, chk.seed, pi, dtype, batch, n, names, do_wrap)
         for it in insts:
             it.n0, it.plan = n, pi
             N = it.dense.shape[-1]
+            if dtype == torch.float64:
+                run_histories(chk, it, batch, dtype, table, lines, pending, quick)
             for opname, method in ops_for(it):
                 if dtype == torch.float32 and (method in ("lanczos", "pivoted_cholesky") or opname == "pivchol" or opname == "diag" and method == "lanczos"):
                     continue
